@@ -480,6 +480,18 @@ pub fn run(ctx: &Ctx) {
         });
         ctx.count("sum_sequences", seqs.len() as u64);
     }
+    // ---- Default impls: the identity, as a point and as an encoding
+    {
+        ctx.eval(2);
+        let dp = EdwardsPoint::default();
+        let dc = CompressedEdwardsY::default();
+        if let Err(e) = check_point(&spec(), &dp, &ed::ID, &Some((U::ZERO, 0)), true) {
+            ctx.violation("ed.default", &format!("EdwardsPoint::default(): {}", e), json!({"kind": "ed_default"}));
+        }
+        if dc.0 != ed::ID.compress() || dc.decompress().map(|p| p.compress().0) != Some(ed::ID.compress()) || dc != CompressedEdwardsY::identity() {
+            ctx.violation("ed.default", &format!("CompressedEdwardsY::default() = {} is not the encoding of the identity", hex(&dc.0)), json!({"kind": "ed_default"}));
+        }
+    }
     // ---- the history machine
     let mpool = pool(if quick { 3 } else { 5 }, false);
     let mut inits = pool(if quick { 4 } else { 10 }, true);
